@@ -52,7 +52,7 @@ fn main()
 		_ => panic!("bad mode {mode}"),
 	};
 	let report_path = if mode == "run" {args[5].clone()} else {args[4].clone()};
-	let work = std::path::PathBuf::from(if mode == "run" {args.get(6)} else {args.get(5)}.cloned().unwrap_or_else(|| format!("/verif/work/h{}", std::process::id())));
+	let work = std::path::PathBuf::from(if mode == "run" {args.get(6)} else {args.get(5)}.cloned().unwrap_or_else(|| format!("{}/work/h{}", std::env::var("VERIF_ROOT").unwrap_or_else(|_| "/verif".to_owned()), std::process::id())));
 	std::fs::create_dir_all(&work).unwrap();
 	silence_panics();
 	let mut cx = Cx
